@@ -173,12 +173,31 @@ def impl_run(code, a, salt, B_b, Ms):
 M4_VARIANTS = ["plain", "mfi-encrypted-data", "unknown-item", "mfi-before-proof", "mfi+unknown"]
 
 
+# M4 replies in which a required item is absent, empty, doubled or contradicted: (shape, must the controller refuse?)
+# None = not constrained (recorded only): a missing State item is tolerated by the code on purpose (iOS does too),
+# and with two Proof items the conformant reading is not defined when the last one is the right one.
+M4_SHAPES = [("no-proof", True), ("no-items", True), ("empty-proof", True), ("empty-proof+mfi", True), ("no-proof+mfi", True),
+             ("only-unknown-item", True), ("proof-twice-wrong-last", True), ("proof-twice-both-wrong", True),
+             ("no-state-wrong-proof", True), ("wrong-state-correct-proof", True), ("error-item+correct-proof", True),
+             ("state-twice-wrong-last", True), ("no-state-correct-proof", None), ("proof-twice-correct-last", None)]
+
+
 def m4_items(TLV, M2, variant):
     state, proof = (TLV.kTLVType_State, TLV.M4), (TLV.kTLVType_Proof, bytearray(M2))
     mfi = (TLV.kTLVType_EncryptedData, bytearray(b"\x5a" * 48))
     unknown = (0xFE, bytearray(b"\x01\x02\x03"))
+    wrong = (TLV.kTLVType_Proof, bytearray(bytes(M2[:-1]) + bytes([M2[-1] ^ 1]) if len(M2) else b"\x01"))
+    empty = (TLV.kTLVType_Proof, bytearray())
     return {"plain": [state, proof], "mfi-encrypted-data": [state, proof, mfi], "unknown-item": [state, proof, unknown],
-            "mfi-before-proof": [state, mfi, proof], "mfi+unknown": [state, proof, mfi, unknown]}[variant]
+            "mfi-before-proof": [state, mfi, proof], "mfi+unknown": [state, proof, mfi, unknown],
+            "no-proof": [state], "no-items": [], "empty-proof": [state, empty], "empty-proof+mfi": [state, empty, mfi],
+            "no-proof+mfi": [state, mfi], "only-unknown-item": [unknown],
+            "proof-twice-wrong-last": [state, proof, wrong], "proof-twice-both-wrong": [state, wrong, wrong],
+            "proof-twice-correct-last": [state, wrong, proof],
+            "no-state-wrong-proof": [wrong], "no-state-correct-proof": [proof],
+            "wrong-state-correct-proof": [(TLV.kTLVType_State, TLV.M2), proof],
+            "state-twice-wrong-last": [state, proof, (TLV.kTLVType_State, TLV.M6)],
+            "error-item+correct-proof": [state, (TLV.kTLVType_Error, TLV.kTLVError_Authentication), proof]}[variant]
 
 
 def impl_pair_setup(code, a, salt, B_b, M2, ref_K=None, variant="plain"):
@@ -206,7 +225,7 @@ def impl_pair_setup(code, a, salt, B_b, M2, ref_K=None, variant="plain"):
     except StopIteration:
         outcome = "continues"
     except Exception as e:  # noqa
-        outcome = "other:" + type(e).__name__
+        outcome = "refused:" + type(e).__name__ if type(e).__module__.startswith("aiohomekit") else "other:" + type(e).__name__
     try:
         if ref_K is not None and m5 is not None:
             enc = dict(m5[0]).get(TLV.kTLVType_EncryptedData)
@@ -354,7 +373,7 @@ def impl_phase(case):
     impl = impl_run(code, a, salt, B_b, Ms) if first["status"] == "ok" else first
     P = dict(case=case, code=code, scode=scode, salt=salt, a=a, b=b, acc=acc, B_b=B_b, conformant=conformant,
              impl=impl, verdict=verdict, M2=M2, cands=cands, Ms=Ms, pair_setup=None, pair_setup_later=None, pair_setup_variants=None,
-             pair_setup_error=None,
+             pair_setup_shapes=None, pair_setup_error=None,
              want=None)
     if conformant and impl["status"] == "ok":
         P["want"] = R.client_values(code.encode(), salt, a, B_b)
@@ -369,6 +388,8 @@ def impl_phase(case):
             # the verdict on the accessory's proof must not depend on optional items riding in M4
             wrong = [("last-bit", bytes(bad)), ("first-bit", bytes([M2[0] ^ 0x80]) + M2[1:]), ("client-proof-echoed", impl["M1"]),
                      ("all-zero", bytes(64))]
+            # ... and a reply without a (non-empty, single, uncontradicted) proof must never let the controller go on
+            P["pair_setup_shapes"] = [(shape, must, impl_pair_setup(code, a, salt, B_b, M2, variant=shape)[2]) for shape, must in M4_SHAPES]
             P["pair_setup_variants"] = []
             for n, variant in enumerate(M4_VARIANTS[1:]):
                 P["pair_setup_variants"].append((variant, "correct", True, impl_pair_setup(code, a, salt, B_b, M2, variant=variant)[2]))
@@ -435,6 +456,11 @@ def oracle_failures(P):
             out.append(("pair-setup:m4-optional-items", f"pair-setup M4 carrying optional items ({variant}): "
                         f"{'correct' if is_correct else 'incorrect (' + label + ')'} accessory proof -> {got}, must be {exp} kind={kind}",
                         dict(m4_variant=variant, offered_proof=label, M2=M2.hex())))
+            break
+    for shape, must_refuse, got in P.get("pair_setup_shapes") or []:
+        if must_refuse and got == "continues":
+            out.append(("pair-setup:m4-item-shape", f"pair-setup M4 reply of shape '{shape}' (no valid accessory proof in it): the controller "
+                        f"goes on to M5, it must refuse kind={kind}", dict(m4_shape=shape, M2=M2.hex())))
             break
     later = P.get("pair_setup_later")
     if later is not None:
@@ -922,6 +948,9 @@ def run(ctx):
              "VERIF_C02_STRICT_SRPSERVER=1; fixes/C02-srpserver-zero-public-key.patch adds the RFC 5054 check")
     cov.extra["seams"] = dict(SEAM_USED)
     pv = collections.Counter((v, "correct" if ok_ else "incorrect", got) for P in all_P for v, _l, ok_, got in (P.get("pair_setup_variants") or []))
+    ps = collections.Counter((sh, got.split(":")[0] if not got.startswith("refused") else got) for P in all_P
+                             for sh, _m, got in (P.get("pair_setup_shapes") or []))
+    cov.extra["pair_setup_m4_item_shapes"] = {f"{sh}->{g}": n for (sh, g), n in sorted(ps.items())}
     cov.extra["pair_setup_m4_optional_items"] = {f"{v}/{c}->{g}": n for (v, c, g), n in sorted(pv.items())}
     for z, mr in zip(plainz, plainz_out):
         ok = bytes(mr) == z["A_b"]
